@@ -80,7 +80,7 @@ def _align(rc: RuleCtx, mf: rm.LoopModel, mg: rm.LoopModel, oname: str):
     if _push_sig(mf) != _push_sig(mg):
         problems.append(("pushes (guards, priorities, ranges)", str([[_short(i, 50) for i in p.items] for p in mg.pushes]),
                          str([[_short(i, 50) for i in p.items] for p in mf.pushes])))
-    af, ag = mf.appends("reduced"), mg.appends("reduced")
+    af, ag = mf.appends(mf.retained), mg.appends(mg.retained)
     if [(e.guard.key, vkey(e.args[0])) for e in af] != [(e.guard.key, vkey(e.args[0])) for e in ag]:
         problems.append(("retained index", str([_short(e.args[0], 80) for e in ag]), str([_short(e.args[0], 80) for e in af])))
     sf = [ast.dump(e.node) for e in mf.events if e.kind == "sort" and e.target == mf.stack]
@@ -102,7 +102,7 @@ def _align(rc: RuleCtx, mf: rm.LoopModel, mg: rm.LoopModel, oname: str):
                 continue
             if e.kind == "aug" and e.target == "length":
                 continue
-            if e.kind == "sort" and e.target == "reduced":
+            if e.kind == "sort" and e.target == m.retained:
                 continue
             if e.kind == "call" and e.target == "evaluation.compute_global_cost":
                 continue
@@ -123,11 +123,19 @@ def _accept(rc: RuleCtx, mg: rm.LoopModel, mname: str):
     res = rc.res
     ev = mg.ev
     pts = mg.env_pre["points"]
-    cache = mg.env_pre.get("cache")
+    caches = [v for v in mg.env_pre.values() if isinstance(v, Obj) and v.tag == "dict"]
+    if len(caches) != 1:
+        raise AnalysisError("rdp._grdp: expected exactly one per-call cache created before the loop")
+    cache = caches[0]
     gc = _gcost(ev, pts, Obj("enum", f"Metrics.{mname}"), cache)
     want = canon_sign(gc - sym("t"), OPS["<"] if mname == "r2" else OPS[">="])
-    pre_c = mg.env_pre.get("curved")
-    post_c = mg.env_post.get("curved")
+    # the continuation flag: the name tested by the loop together with the stack
+    flags = [n.id for n in ast.walk(mg.loop.test) if isinstance(n, ast.Name) and n.id != mg.stack]
+    if len(flags) != 1:
+        raise AnalysisError("rdp._grdp: loop test is not `<flag> and <stack>`")
+    flag = flags[0]
+    pre_c = mg.env_pre.get(flag)
+    post_c = mg.env_post.get(flag)
     fr = Frame(ev, mg.fi, 0)
     ok = True
     for label, v in (("before the loop", pre_c), ("after an insertion", post_c)):
@@ -139,11 +147,11 @@ def _accept(rc: RuleCtx, mg: rm.LoopModel, mname: str):
                           _short(g, 200), _short(want, 200), construct=f"acceptance {label} {mname}")
     # loop test
     env = dict(mg.env_pre)
-    env["curved"] = sym("curved")
+    env[flag] = sym("flag!")
     g = fr.cond(mg.loop.test, env)
     items = g.a if g.kind == "and" else (g,)
-    has_c = any(x.kind == "atom" and "curved" in repr(x.a) for x in items)
-    has_s = any(x.kind == "atom" and "stack" in repr(x.a) for x in items)
+    has_c = any(x.kind == "atom" and "flag!" in repr(x.a) for x in items)
+    has_s = any(x.kind == "atom" and mg.stack in repr(x.a) for x in items)
     if not (g.kind == "and" and len(items) == 2 and has_c and has_s):
         ok = False
         res.violation("G2", mg.fi.module, mg.fi.name, mg.loop, "the loop does not run exactly while the cost is rejecting and splittable segments remain",
@@ -156,8 +164,8 @@ def _g3(rc: RuleCtx, mg: rm.LoopModel):
     res = rc.res
     evs = mg.events
     pos = {id(e): k for k, e in enumerate(evs)}
-    app = [e for e in evs if e.kind == "append" and e.target == "reduced"]
-    srt = [e for e in evs if e.kind == "sort" and e.target == "reduced" and _ascending(e.node)]
+    app = [e for e in evs if e.kind == "append" and e.target == mg.retained]
+    srt = [e for e in evs if e.kind == "sort" and e.target == mg.retained and _ascending(e.node)]
     cst = [e for e in evs if e.kind == "call" and e.target == "evaluation.compute_global_cost"]
     ok = len(cst) == 1 and cst[0].guard.kind == "true" and bool(app) and bool(srt) \
         and all(pos[id(a)] < pos[id(cst[0])] for a in app) and pos[id(srt[0])] < pos[id(cst[0])] and pos[id(app[0])] < pos[id(srt[0])]
@@ -165,14 +173,15 @@ def _g3(rc: RuleCtx, mg: rm.LoopModel):
         args = cst[0].args
         ok = len(args) == 4 and isinstance(args[1], Rat) and "reduced@list" in args[1].symbols()
     # cache: created once before the loop, not re-bound inside
-    cache_pre = mg.env_pre.get("cache")
-    rebound = any(isinstance(n, ast.Name) and isinstance(n.ctx, ast.Store) and n.id == "cache" for st in mg.loop.body for n in ast.walk(st))
+    cache_names = [k_ for k_, v in mg.env_pre.items() if isinstance(v, Obj) and v.tag == "dict"]
+    cache_pre = mg.env_pre.get(cache_names[0]) if len(cache_names) == 1 else None
+    rebound = any(isinstance(n, ast.Name) and isinstance(n.ctx, ast.Store) and n.id in cache_names for st in mg.loop.body for n in ast.walk(st))
     if ok and isinstance(cache_pre, Obj) and cache_pre.tag == "dict" and not cache_pre.val and not rebound:
         res.ok("G3", "rdp._grdp", "global cost of the current sorted set, with the per-call cache, after every insertion")
     else:
         res.violation("G3", mg.fi.module, mg.fi.name, mg.loop,
                       "the global cost is not evaluated on the current (inserted and sorted) set with one per-call cache",
-                      str([(e.kind, e.target) for e in evs if e.target in ("reduced", "evaluation.compute_global_cost")]) + f" cache={cache_pre} rebound={rebound}",
+                      str([(e.kind, e.target) for e in evs if e.target in (mg.retained, "evaluation.compute_global_cost")]) + f" cache={cache_pre} rebound={rebound}",
                       "append; sort; compute_global_cost(points, reduced, cost, cache)", construct="global cost evaluation")
 
 
